@@ -6,6 +6,11 @@ use netflow_parser::{NetflowPacket, NetflowParser};
 
 pub mod c01;
 pub mod c02;
+pub mod c03;
+pub mod c04;
+pub mod c05;
+pub mod conf;
+pub mod c08;
 
 /// run a case's history on fresh parsers; returns per call (parser index, buffer, result)
 pub fn run_history(case: &Case) -> (Vec<NetflowParser>, Vec<(usize, Vec<u8>, Vec<NetflowPacket>)>) {
@@ -31,5 +36,5 @@ pub struct PropDef {
 }
 
 pub fn all() -> Vec<PropDef> {
-    vec![c01::DEF, c02::DEF]
+    vec![c01::DEF, c02::DEF, c03::DEF, c04::DEF, c05::DEF, c08::DEF]
 }
